@@ -380,13 +380,26 @@ func (dp *DataProcessor) startWindowProcessing() {
 					// Channel closed, exit
 					return
 				}
-				dp.processWindowBatch(batch)
+				dp.processWindowBatchSafe(batch)
 			case <-dp.stream.done:
 				// Stream stopped, exit
 				return
 			}
 		}
 	}()
+}
+
+// processWindowBatchSafe contains a panic raised while one batch is aggregated (a user function in
+// an aggregate argument, for instance): the batch is lost and logged, the consumer goroutine goes on.
+// The recover above sits outside the loop, so a panic that reached it ended the goroutine and every
+// later window of the query was silently lost.
+func (dp *DataProcessor) processWindowBatchSafe(batch []types.Row) {
+	defer func() {
+		if r := recover(); r != nil {
+			dp.stream.log.Error("window batch processing panic recovered: %v", r)
+		}
+	}()
+	dp.processWindowBatch(batch)
 }
 
 // processWindowBatch processes window batch data
